@@ -223,7 +223,9 @@ class Exec:
 
     def write(self, fid, env, p, v):
         l, path = self.lvalue(fid, env, p)
-        env[l] = set_at(env.get(l), path, v)
+        try: env[l] = set_at(env.get(l), path, v)
+        except TypeError:
+            if not self.opaque_calls_ok: raise Inconclusive('write into unmodelled place ' + p)
 
     def deref(self, env, v):
         n = 0
